@@ -751,4 +751,110 @@ def build(active_known=frozenset()):
     c.raises()
     c.ensures("count is the length of the sequence", lambda a: a.result == V.mk_int(z3.Length(sview(a.pre, a.self))))
 
+    # =================================================================================== runtime dispatch (what basilisp.core calls)
+    # entered through the live single-dispatch objects; the collection methods are inlined, so a wrong dispatch
+    # (e.g. a vector treated as a generic Sequence) shows up against the same model
+    rt = "basilisp.lang.runtime:"
+
+    def live(name, label, **params):
+        c = new(rt + name, label)
+        c.entry_live = True
+        for k, t in params.items():
+            c.param(k, t)
+        return c
+
+    seq_conj = {PV: lambda S, x: cat(S, z3.Unit(x)), PQ: lambda S, x: cat(S, z3.Unit(x)), PL: lambda S, x: cat(z3.Unit(x), S)}
+    for cls, f in seq_conj.items():
+        c = live("conj", f"{cls.__name__}, one element", coll=OBJ(cls), x=ANY)
+        c.raises()
+        c.ensures("conj adds the element at the collection's natural end and returns the same kind of collection",
+                  lambda a, cls=cls, f=f: z3.And(has_class(a.eng, a.result, cls), sview(a.post, a.result) == f(sview(a.pre, a.coll), a.x)))
+
+    c = live("conj", "PersistentSet, one element", coll=OBJ(PS), x=ANY)
+    c.raises()
+    c.ensures("conj adds the element", lambda a: z3.And(has_class(a.eng, a.result, PS), same_set(mview(a.post, a.result), *model_conj(mview(a.pre, a.coll)[1], mview(a.pre, a.coll)[2], a.x))))
+
+    c = live("conj", "PersistentMap, one map entry", coll=OBJ(PM), x=OBJ(ME))
+    c.requires("the entry has two elements", lambda a: z3.Length(sview(a.pre, a.x)) == 2)
+    c.raises()
+    c.ensures("conj of [k v] binds k to v and leaves every other entry alone",
+              lambda a: z3.And(has_class(a.eng, a.result, PM), same_map(mview(a.post, a.result), model_assoc(*mview(a.pre, a.coll), sview(a.pre, a.x)[0], sview(a.pre, a.x)[1]))))
+
+    c = live("conj", "nil, one element", coll=T(lambda v: V.is_none(v), None, "None"), x=ANY)
+    c.raises()
+    c.ensures("conj on nil gives a one-element list", lambda a: z3.And(has_class(a.eng, a.result, PL), sview(a.post, a.result) == z3.Unit(a.x)))
+
+    c = live("assoc", "PersistentVector, one pair", m=OBJ(PV), k=INT, v=ANY)
+    c.requires("the index is not negative", lambda a: V.Val.i(a.k) >= 0)
+    c.raises(IndexError)
+    c.raises_only_if("the index is beyond the end", (IndexError,), lambda a: V.Val.i(a.k) > z3.Length(sview(a.pre, a.m)))
+    c.ensures("assoc replaces position i (appends when i = count)",
+              lambda a: z3.And(has_class(a.eng, a.result, PV), V.Val.i(a.k) <= z3.Length(sview(a.pre, a.m)), sview(a.post, a.result) == seq_update(sview(a.pre, a.m), V.Val.i(a.k), a.v)))
+
+    c = live("assoc", "PersistentMap, one pair", m=OBJ(PM), k=ANY, v=ANY)
+    c.raises()
+    c.ensures("assoc binds the key to the value and leaves every other entry alone",
+              lambda a: z3.And(has_class(a.eng, a.result, PM), same_map(mview(a.post, a.result), model_assoc(*mview(a.pre, a.m), a.k, a.v))))
+
+    c = live("assoc", "nil, one pair", m=T(lambda v: V.is_none(v), None, "None"), k=ANY, v=ANY)
+    c.raises()
+    c.ensures("assoc on nil gives the one-entry map",
+              lambda a: z3.And(has_class(a.eng, a.result, PM),
+                               same_map(mview(a.post, a.result), model_assoc(z3.K(V.Val, V.VNone), z3.K(V.Val, z3.BoolVal(False)), z3.IntVal(0), a.k, a.v))))
+
+    c = live("get", "PersistentVector", m=OBJ(PV), k=INT, default=ANY)
+    c.requires("the index is not negative", lambda a: V.Val.i(a.k) >= 0)
+    c.raises()
+    c.ensures("get returns the element at an index in range and the default otherwise",
+              lambda a: a.result == z3.If(V.Val.i(a.k) < z3.Length(sview(a.pre, a.m)), sview(a.pre, a.m)[V.Val.i(a.k)], a.default))
+
+    for cls, viewf in ((PM, mview), (TM, tmview)):
+        c = live("get", cls.__name__, m=OBJ(cls), k=ANY, default=ANY)
+        c.raises()
+        c.ensures("get returns the bound value of a present key and the default otherwise",
+                  lambda a, viewf=viewf: a.result == z3.If(z3.Select(viewf(a.pre, a.m)[1], lib.key_norm(a.k)), z3.Select(viewf(a.pre, a.m)[0], lib.key_norm(a.k)), a.default))
+
+    for cls, viewf in ((PS, mview), (TS, tmview)):
+        c = live("get", cls.__name__, m=OBJ(cls), k=ANY, default=ANY)
+        c.raises()
+        c.ensures("get on a set returns a member itself and the default otherwise",
+                  lambda a, viewf=viewf: a.result == z3.If(z3.Select(viewf(a.pre, a.m)[1], lib.key_norm(a.k)), a.k, a.default))
+
+    c = live("get", "nil", m=T(lambda v: V.is_none(v), None, "None"), k=ANY, default=ANY)
+    c.raises()
+    c.ensures("get on nil is the default", lambda a: a.result == a.default)
+
+    c = live("contains", "PersistentVector", coll=OBJ(PV), k=INT)
+    c.raises()
+    c.ensures("contains? is true exactly for 0 <= k < count", lambda a: a.result == V.mk_bool(z3.And(V.Val.i(a.k) >= 0, V.Val.i(a.k) < z3.Length(sview(a.pre, a.coll)))))
+
+    for cls in (PM, PS):
+        c = live("contains", cls.__name__, coll=OBJ(cls), k=ANY)
+        c.raises()
+        c.ensures("contains? is membership in the domain", lambda a: a.result == V.mk_bool(z3.Select(mview(a.pre, a.coll)[1], lib.key_norm(a.k))))
+
+    c = live("nth", "PersistentVector with notfound", coll=OBJ(PV), i=INT, notfound=ANY)
+    c.requires("the index is not negative", lambda a: V.Val.i(a.i) >= 0)
+    c.requires("notfound is given", lambda a: a.notfound != a.eng.lift(IIndexed.NTH_SENTINEL, a.pre.st))
+    c.raises()
+    c.ensures("nth returns the element at an index in range and notfound otherwise",
+              lambda a: a.result == z3.If(V.Val.i(a.i) < z3.Length(sview(a.pre, a.coll)), sview(a.pre, a.coll)[V.Val.i(a.i)], a.notfound))
+
+    for cls in (PV, PL, PQ):
+        c = live("count", cls.__name__, coll=OBJ(cls))
+        c.raises()
+        c.ensures("count is the length of the sequence", lambda a: a.result == V.mk_int(z3.Length(sview(a.pre, a.coll))))
+    for cls in (PM, PS):
+        c = live("count", cls.__name__, coll=OBJ(cls))
+        c.raises()
+        c.ensures("count is the number of entries", lambda a: a.result == V.mk_int(mview(a.pre, a.coll)[2]))
+
+    # =================================================================================== lemmas about the spec functions
+    S_, i_, j_ = z3.Const("S", V.ValSeq), z3.Int("i"), z3.Int("j")
+    v_ = z3.Const("v", V.Val)
+    inb = [i_ >= 0, i_ <= z3.Length(S_)]
+    pack.lemma("seq_update: the length grows by one exactly when appending", lambda: (inb, z3.Length(seq_update(S_, i_, v_)) == z3.If(i_ == z3.Length(S_), z3.Length(S_) + 1, z3.Length(S_))))
+    pack.lemma("seq_update: position i holds the new value", lambda: (inb, seq_update(S_, i_, v_)[i_] == v_))
+    pack.lemma("seq_update: every position before i is unchanged", lambda: (inb + [j_ >= 0, j_ < i_], seq_update(S_, i_, v_)[j_] == S_[j_]))
+
     return pack
